@@ -161,7 +161,11 @@ def run_harnesses(harnesses, repo='/repo', timeout=1800, extra_args=()):
                     # descriptions are the only failed checks allowed, and at least one must be present
                     exp = EXPECTED_PANICS.get(h)
                     if exp and status == 'failed':
-                        if failed_checks and all(any(re.search(e, fc.strip()) for e in exp) for fc in failed_checks):
+                        if isinstance(exp, dict):
+                            # deny-list form: every failed check must be a defined panic, i.e. none of the listed classes
+                            if failed_checks and not any(re.search(d, fc, re.I) for d in exp['deny'] for fc in failed_checks):
+                                status = 'success'
+                        elif failed_checks and all(any(re.search(e, fc.strip()) for e in exp) for fc in failed_checks):
                             status = 'success'
                     elif exp and status == 'success':
                         status = 'failed'  # nothing refused: the call returned or the harness is vacuous
